@@ -30,6 +30,8 @@ struct Body<'s> {
     block_no: usize,
     /// every `EXPR as TYPE` cast: span of the whole cast, of the operand, and the target type text
     casts: Vec<Value>,
+    /// identifiers bound by patterns (let, for, match arms, closure parameters), in source order
+    locals: Vec<Value>,
 }
 
 /// does the expression contain `?` or `return` outside nested closures? (then it cannot be inlined)
@@ -49,6 +51,10 @@ impl<'ast, 's> Visit<'ast> for Body<'s> {
         let (a, b) = r(e.ty.span());
         self.casts.push(json!({"span": rj(e.span()), "expr": rj(e.expr.span()), "ty": &self.src[a..b]}));
         syn::visit::visit_expr_cast(self, e);
+    }
+    fn visit_pat_ident(&mut self, p: &'ast syn::PatIdent) {
+        self.locals.push(json!(p.ident.to_string()));
+        syn::visit::visit_pat_ident(self, p);
     }
     fn visit_block(&mut self, b: &'ast syn::Block) {
         let me = self.block_no;
@@ -156,7 +162,7 @@ impl<'s> Ix<'s> {
         p.join("::")
     }
     fn push_fn(&mut self, path: String, whole: Span, attrs: &[syn::Attribute], vis: Option<&syn::Visibility>, sig: &syn::Signature, block: &syn::Block) {
-        let mut b = Body { src: self.src, loops: vec![], closures: vec![], macros: vec![], combinators: vec![], stmts: vec![], block_no: 0, casts: vec![] };
+        let mut b = Body { src: self.src, loops: vec![], closures: vec![], macros: vec![], combinators: vec![], stmts: vec![], block_no: 0, casts: vec![], locals: vec![] };
         b.visit_block(block);
         let (ws, we) = r(whole);
         let after_attrs = match vis {
@@ -173,7 +179,7 @@ impl<'s> Ix<'s> {
         self.items.push(json!({"kind":"fn","path":path,"span":[ws,we],"attrs":attrs_json(attrs,self.src),
             "after_attrs":after_attrs,"sig":rj(sig.span()),"ret":ret,"body":[bs,be],"inputs":inputs,
             "name": sig.ident.to_string(),
-            "loops":b.loops,"closures":b.closures,"macros":b.macros,"combinators":b.combinators,"stmts":b.stmts,"casts":b.casts}));
+            "loops":b.loops,"closures":b.closures,"macros":b.macros,"combinators":b.combinators,"stmts":b.stmts,"casts":b.casts,"locals":b.locals}));
     }
     fn push_simple(&mut self, kind: &str, name: String, whole: Span, attrs: &[syn::Attribute], after_attrs: usize, extra: Value) {
         let path = self.pfx(&name);
